@@ -385,7 +385,8 @@ def standard_check(ctx, meta):
         mods = [f for f in gate.get('files', []) if f.startswith(('Model/', 'Lib/', 'Gen/'))]
         ok, out, _ = coq_make(ctx, [f + 'o' for f in mods])
         model_ok = ok
-    ok, out, dt, exes = cargo_build(ctx, [meta['bin']], meta.get('profile', 'dev'), meta.get('hooks', True))
+    extra_bins = list(meta.get('extra_bins', []))
+    ok, out, dt, exes = cargo_build(ctx, [meta['bin']] + extra_bins, meta.get('profile', 'dev'), meta.get('hooks', True))
     ctx.cov['harness_build_s'] = round(dt, 1)
     if not ok:
         ctx.problem('correspondence', 'harness no longer builds against the repository tree (cargo build --bin %s)' % meta['bin'], out[-1500:])
@@ -400,6 +401,29 @@ def standard_check(ctx, meta):
         cases = json.load(open(os.path.join(out_dir, 'cases.json')))
     except Exception:
         pass
+    # additional harness binaries of the same property (they write summary_extra.json / cases_extra.json
+    # and their own cases_*.v shards with disjoint case ids into the same directory)
+    for xb in extra_bins:
+        for f in ('summary_extra.json', 'cases_extra.json'):
+            try: os.remove(os.path.join(out_dir, f))
+            except OSError: pass
+        cmd = [exes[xb], '--tier', ctx.tier, '--seed', str(ctx.seed), '--out', out_dir]
+        rcx, outx, dtx = sh(cmd, timeout=meta.get('harness_timeout', 1500))
+        ctx.cov['harness_run_s'] = round(ctx.cov.get('harness_run_s', 0) + dtx, 1)
+        try:
+            sx = json.load(open(os.path.join(out_dir, 'summary_extra.json')))
+            cx = json.load(open(os.path.join(out_dir, 'cases_extra.json')))
+        except Exception:
+            ctx.problem('correspondence', 'harness %s failed (exit %s)' % (xb, rcx), outx[-1500:])
+            continue
+        summary['evaluations'] = summary.get('evaluations', 0) + sx.get('evaluations', 0)
+        summary['distinct_nontrivial'] = summary.get('distinct_nontrivial', 0) + sx.get('distinct_nontrivial', 0)
+        summary['discarded_ambiguous'] = (summary.get('discarded_ambiguous') or 0) + (sx.get('discarded_ambiguous') or 0)
+        summary.setdefault('distribution', {}).update(sx.get('distribution', {}))
+        summary.setdefault('direct_violations', []).extend(sx.get('direct_violations', []))
+        summary['rule'] = (summary.get('rule') or '') + ' || ' + xb + ': ' + (sx.get('rule') or '')
+        summary.setdefault('samples', []).extend(sx.get('samples', [])[:2])
+        cases.update(cx)
     for k in ('evaluations', 'distinct_nontrivial', 'rule', 'samples', 'discarded_ambiguous'):
         ctx.cov[k] = summary.get(k)
     ctx.cov['input_distribution'] = summary.get('distribution', {})
